@@ -98,6 +98,14 @@ static std::vector<Expose> exposures()
   v.push_back({"vs_contains", "vs contains \"a\"", [](const Env& e) { return e.at("vs").s.find('a') != bytes::npos; }});
   v.push_back({"vs_iequals", "vs iequals \"A\"", [](const Env& e) { return e.at("vs").s == "a" || e.at("vs").s == "A"; }});
   v.push_back({"vs_len", "vs startswith \"zz\"", [](const Env& e) { return e.at("vs").s.compare(0, 2, "zz") == 0; }});
+  // a second string variable over the same domain: equal values share pooled storage
+  idx = 0;
+  for (auto& k : strs_domain())
+  {
+    bytes kk = k;
+    v.push_back({strf("vt_eq_%d", idx++), "vt == " + text_literal(k), [kk](const Env& e) { return e.at("vt").s == kk; }});
+  }
+  v.push_back({"vs_vt", "vs == vt", [](const Env& e) { return e.at("vs").s == e.at("vt").s; }});
   return v;
 }
 
@@ -119,7 +127,7 @@ static int type_of(const std::string& id)
 std::string run_case(Src& s, CaseInfo& ci)
 {
   static const std::vector<Expose> ex = exposures();
-  static const char* IDS[] = {"vi", "vb", "vf", "vs"};
+  static const char* IDS[] = {"vi", "vb", "vf", "vs", "vt"};
   const bytes buffer = "..abc..abc";
   std::string log;
   auto note = [&](const std::string& l) { log += l + "\n"; };
@@ -190,7 +198,7 @@ std::string run_case(Src& s, CaseInfo& ci)
       if (got != want)
         return who + ": rule `" + e.cond + "` is " + (got ? "true" : "false") + " but the scan should see vi=" +
                env.at("vi").show() + " vb=" + env.at("vb").show() + " vf=" + env.at("vf").show() + " vs=" +
-               env.at("vs").show();
+               env.at("vs").show() + " vt=" + env.at("vt").show();
     }
     return "";
   };
@@ -203,7 +211,7 @@ std::string run_case(Src& s, CaseInfo& ci)
     if (k == 0)
     {  // rules-level definition (valid / unknown id / wrong type)
       int bad = (int) s.weighted({70, 15, 15});
-      std::string id = IDS[s.range(0, 3)];
+      std::string id = IDS[s.range(0, 4)];
       if (bad == 0)
       {
         EVal v = gen_val(s, type_of(id));
@@ -251,7 +259,7 @@ std::string run_case(Src& s, CaseInfo& ci)
     {  // scanner-level definition
       size_t si = s.range(0, scanners.size() - 1);
       int bad = (int) s.weighted({70, 15, 15});
-      std::string id = IDS[s.range(0, 3)];
+      std::string id = IDS[s.range(0, 4)];
       if (bad == 0)
       {
         EVal v = gen_val(s, type_of(id));
